@@ -69,6 +69,9 @@ pub struct Gen {
     /// scripted prelude still to be emitted (directed modes)
     script: std::collections::VecDeque<Op>,
     pending_ask: Option<(AskSpec, String, u128, String)>,
+    /// generator-side fault / schedule events (duplicate delivery, foreign signer, boundary clock …)
+    pub counters: std::collections::BTreeMap<&'static str, u64>,
+    sloppy_sent: Vec<(String, String, bool, u64)>,
 }
 
 const BOUNDARY_IDS: [u64; 6] = [0, 1, 9007199254740989, 9007199254740990, 9007199254740991, u64::MAX];
@@ -184,7 +187,13 @@ impl Gen {
             next_id_hint: 1,
             script: Default::default(),
             pending_ask: None,
+            counters: Default::default(),
+            sloppy_sent: vec![],
         }
+    }
+
+    fn count(&mut self, k: &'static str) {
+        *self.counters.entry(k).or_insert(0) += 1;
     }
 
     pub fn script_empty(&self) -> bool {
@@ -501,6 +510,12 @@ impl Gen {
                 Fung::Native(d) => Piece::Native(vec![fund(&d, self.amount().min(o.bal(&who, &Fung::Native(d.clone())).max(1)))]),
                 Fung::Cw20(t) => Piece::Cw20(t.clone(), self.amount().min(o.bal(&who, &Fung::Cw20(t)).max(1))),
             }
+        } else if !l.goods.nfts.is_empty() && self.rng.chance(2, 5) {
+            let mine = self.nfts_of(o, &who);
+            match self.rng.pick_opt(&mine) {
+                Some(n) => Piece::Nft(n.0.clone(), n.1.clone()),
+                None => self.random_piece(o, names, &who),
+            }
         } else {
             self.random_piece(o, names, &who)
         };
@@ -771,6 +786,36 @@ impl Gen {
         }
     }
 
+    /// the careless collection lets its owner send one token id twice: into a fresh record, then
+    /// again into the same record (must be refused) or into another one
+    fn mv_sloppy(&mut self, o: &Obs, names: &Names) -> Option<Op> {
+        let ci = names.sloppy.iter().position(|s| *s)?;
+        let coll = names.colls[ci].clone();
+        let m = &names.market;
+        if let Some((who, tid, is_listing, id)) = self.rng.pick_opt(&self.sloppy_sent.clone()).cloned() {
+            if self.rng.chance(2, 3) {
+                self.count("sloppy_double_send");
+                let inner = if is_listing { msgs::inner_add_to_listing_cw721(id) } else { msgs::inner_add_to_bucket_cw721(id) };
+                return Some(Op::tx(&who, &coll, msgs::cw721_send(m, &tid, &inner), vec![]));
+            }
+        }
+        let who = self.user(names);
+        let tid = format!("s{}", self.rng.range(1, 4));
+        let is_listing = self.rng.chance(1, 2);
+        let inner;
+        let id;
+        if is_listing {
+            id = self.fresh_listing_id(o);
+            let ask = self.random_ask(o, names, &who);
+            inner = msgs::inner_create_listing_cw721(id, &ask, None);
+        } else {
+            id = self.fresh_bucket_id(o);
+            inner = msgs::inner_create_bucket_cw721(id);
+        }
+        self.sloppy_sent.push((who.clone(), tid.clone(), is_listing, id));
+        Some(Op::tx(&who, &coll, msgs::cw721_send(m, &tid, &inner), vec![]))
+    }
+
     fn mv_clock(&mut self, o: &Obs, _names: &Names) -> Option<Op> {
         let now = o.time_ns;
         let kind = match self.mode {
@@ -798,6 +843,7 @@ impl Gen {
             }
             _ => {
                 // boundary seeking
+                self.count("boundary_clock");
                 let mut targets: Vec<(u64, u64)> = vec![]; // (target ns, blocks)
                 let deltas: [i64; 6] = [-1_000_000_000, -1, 0, 1, 100_000_000, 1_000_000_000];
                 for l in &o.listings {
@@ -953,20 +999,25 @@ impl Gen {
         if seller_side || both {
             // seller sells one NFT of each registered collection, asks for coins
             let ask = AskSpec { native: vec![(denom.into(), price)], ..Default::default() };
-            let mut first = true;
             let mut colls: Vec<usize> = (0..n).collect();
             if extra_unreg {
                 colls.push(n);
             }
-            for ci in colls {
-                let tid = "1".to_string(); // user0's first token
-                let inner = if first { msgs::inner_create_listing_cw721(1, &ask, None) } else { msgs::inner_add_to_listing_cw721(1) };
-                first = false;
-                self.script.push_back(Op::tx(seller, &names.colls[ci], msgs::cw721_send(m, &tid, &inner), vec![]));
-                if dup_coll && ci == 0 {
-                    // a second token of the same collection, if user0 has one
-                    self.script.push_back(Op::tx(seller, &names.colls[ci], msgs::cw721_send(m, "2", &msgs::inner_add_to_listing_cw721(1)), vec![]));
+            // (collection, token id): user0 owns token "1" (and "2" when two are minted per user) in each;
+            // second tokens of a few collections are mixed in, and the deposit order is shuffled so that
+            // NFTs of one collection are not adjacent in the stored vector
+            let mut sends: Vec<(usize, &str)> = colls.iter().map(|c| (*c, "1")).collect();
+            if dup_coll {
+                let k = self.rng.range(1, 3) as usize;
+                for c in colls.iter().take(k) {
+                    sends.push((*c, "2"));
                 }
+            }
+            sends.truncate(25);
+            self.rng.shuffle(&mut sends);
+            for (i, (ci, tid)) in sends.iter().enumerate() {
+                let inner = if i == 0 { msgs::inner_create_listing_cw721(1, &ask, None) } else { msgs::inner_add_to_listing_cw721(1) };
+                self.script.push_back(Op::tx(seller, &names.colls[*ci], msgs::cw721_send(m, tid, &inner), vec![]));
             }
             self.script.push_back(Op::tx(seller, m, msgs::finalize(1, 3600), vec![]));
             self.script.push_back(Op::tx(buyer, m, msgs::create_bucket(1), vec![fund(denom, price)]));
@@ -1091,7 +1142,7 @@ impl Gen {
             Mode::RegistryHeavy => [6, 2, 1, 6, 8, 1, 8, 3, 2, 2, 1, 26, 14, 3, 2, 1, 8, 0],
             Mode::CycleHeavy => [9, 3, 1, 9, 12, 1, 12, 6, 6, 2, 14, 2, 12, 3, 2, 1, 0, 0],
             Mode::ExpiryRace => [10, 3, 1, 12, 16, 1, 14, 5, 3, 10, 1, 2, 16, 3, 4, 1, 0, 0],
-            Mode::BadInput => [14, 10, 8, 6, 10, 8, 6, 3, 3, 3, 1, 3, 5, 10, 2, 1, 0, 0],
+            Mode::BadInput => [14, 10, 8, 6, 10, 8, 6, 3, 3, 3, 1, 3, 5, 10, 2, 1, 0, 6],
         };
         for _ in 0..12 {
             let k = self.rng.weighted(&w);
@@ -1110,7 +1161,14 @@ impl Gen {
                 11 => self.mv_registry(o, names),
                 12 => self.mv_clock(o, names),
                 13 => self.mv_freeform(o, names),
-                14 => self.recent.last().cloned().filter(|_| self.rng.chance(1, 2)).or_else(|| self.rng.pick_opt(&self.recent.clone()).cloned()),
+                14 => {
+                    let r = self.recent.last().cloned().filter(|_| self.rng.chance(1, 2)).or_else(|| self.rng.pick_opt(&self.recent.clone()).cloned());
+                    if r.is_some() {
+                        self.count("duplicate");
+                    }
+                    r
+                }
+                17 => self.mv_sloppy(o, names),
                 15 => self.mv_bystander(o, names),
                 16 => self.mv_admin_change(o, names),
                 _ => None,
@@ -1152,6 +1210,7 @@ impl Gen {
         }
         if self.swap_sender && self.rng.chance(1, 30) {
             *from = self.any_account(names);
+            *self.counters.entry("foreign_signer").or_insert(0) += 1;
         }
         if self.faults && self.rng.chance(1, 5) {
             // dry run on a fork to learn how many messages / queries the operation issues
